@@ -352,17 +352,10 @@ def none_guard_ok(ctx, f, g, assign):
     # find the governing test: the `if` whose body contains the assignment
     for s in walk_no_nested(f.node):
         if isinstance(s, ast.If) and assign in s.body:
-            t = s.test
-            txt = norm(t)
-            if txt == 'undo_funcs is None': return True, ''
-            if isinstance(t, ast.UnaryOp) and isinstance(t.op, ast.Not) and isinstance(t.operand, ast.Name):
-                flag = t.operand.id
-                defs = [d for d in walk_no_nested(f.node) if isinstance(d, ast.Assign) and any(dotted(x) == flag for x in d.targets)]
-                if defs and all(norm(d.value) == 'undo_funcs is not None' for d in defs): return True, ''
-                return False, 'the list is replaced when `not %s`, and %s is %s (not the None-ness of the parameter)' % (
-                    flag, flag, [norm(d.value) for d in defs])
-            return False, 'the list is replaced under `%s` (truthiness / other test), so an empty list passed by the caller is replaced by ' \
-                          'a private one that nobody replays' % txt
+            from ..typestate import equivalent_to_atom, resolve_flags
+            if equivalent_to_atom(f.node, s.test, 'undo_funcs is None'): return True, ''
+            return False, 'the list is replaced under `%s` (i.e. `%s`), which is not "the parameter is None": an empty list passed by the caller is falsy and ' \
+                          'gets replaced by a private one that nobody replays' % (norm(s.test), norm(resolve_flags(f.node, s.test)))
     if norm(assign.value) == '[]': return False, 'unconditional `undo_funcs = []` in a function that receives undo_funcs'
     return True, ''
 
